@@ -508,6 +508,46 @@ class CFG:
                 out.append(f"{n.kind}{'(' + n.tag + ')' if n.tag else ''}@{ln}: {txt}")
         return out
 
+    def guards_of(self, nodes: Iterable[int], exclude_labels: Optional[Set[str]] = None) -> List[Tuple[ast.AST, bool]]:
+        """Control dependence from the graph: tests T such that the given nodes are
+        reachable from ENTRY only through one outcome of T.  Returns (test expr, outcome)."""
+        nodes = set(nodes)
+        out: List[Tuple[ast.AST, bool]] = []
+        for n in self.nodes:
+            if n.kind != "test" or n.ast is None:
+                continue
+            for lab, pol in (("t", True), ("f", False)):
+                edges = {(n.id, t, l) for t, l in n.succ if l == lab}
+                if not edges:
+                    continue
+                other = {(n.id, t, l) for t, l in n.succ if l in ("t", "f") and l != lab}
+                if not other:
+                    continue
+                r = self.reachable([self.entry], removed_edges=edges, exclude_labels=exclude_labels, include_srcs=True)
+                if not (r & nodes):
+                    out.append((n.ast, pol))
+        return out
+
+    def simple_paths(self, frm: int, to: Iterable[int], exclude_labels: Optional[Set[str]] = None, limit: int = 20000) -> List[List[int]]:
+        """All simple paths (no node repeated) from frm to any node of `to`."""
+        to = set(to)
+        out: List[List[int]] = []
+        stack: List[Tuple[int, List[int]]] = [(frm, [frm])]
+        while stack:
+            n, path = stack.pop()
+            if n in to and len(path) > 1 or (n in to and n != frm):
+                out.append(path)
+                if len(out) > limit:
+                    raise AnalysisError("too many paths")
+                continue
+            for t, lab in self.nodes[n].succ:
+                if exclude_labels and lab in exclude_labels:
+                    continue
+                if t in path:
+                    continue
+                stack.append((t, path + [t]))
+        return out
+
     def stmts(self) -> int:
         return sum(1 for n in self.nodes if n.kind not in ("entry", "exit", "xexit", "join"))
 
